@@ -13,6 +13,7 @@ import BV.C13.LemmasStore
 import BV.C13.LemmasBip68
 import BV.C13.LemmasPush
 import BV.C13.LemmasSanity
+import BV.C13.LemmasRound3
 import BV.Generated.C13
 namespace BV.C13
 open Spec
@@ -69,6 +70,19 @@ theorem rolling_roots_log {α : Type} (H : α → α → α) (zero : α) : ∀ (
         have := ih (n/2) (by omega) _ _ _ h
         omega
 
+/-- With a collision-free node hash (an explicit hypothesis, never an axiom) the root commits to
+    the leaf list once the number of leaves is fixed — without the count it does not
+    (`mroot_dup_last`), which is why `checkBlockSanity` also rejects duplicates. -/
+theorem mroot_injective {α : Type} (H : α → α → α) (zero : α)
+    (Hinj : ∀ a b c d, H a b = H c d → a = c ∧ b = d) (l1 l2 : List α) (hl : l1.length = l2.length)
+    (h : mroot H zero l1 = mroot H zero l2) : l1 = l2 :=
+  Lemmas.mroot_injective H zero Hinj l1.length l1 l2 rfl hl.symm h
+
+/-- the hypothesis is satisfiable: the free binary tree constructor is an injective node hash -/
+inductive FreeNode | leaf (n : Nat) | node (l r : FreeNode)
+example : ∀ a b c d : FreeNode, FreeNode.node a b = FreeNode.node c d → a = c ∧ b = d :=
+  fun _ _ _ _ h => by injection h with h1 h2; exact ⟨h1, h2⟩
+
 /-- Both paths on EVERY list of 0..N leaves (the empty list after the `fix:` guard). -/
 theorem merkle_paths_eq_spec {α : Type} (H : α → α → α) (zero : α) (l : List α) :
     storeRoot H zero l = some (mroot H zero l) ∧ rollingRoot H zero l = some (mroot H zero l) := by
@@ -102,6 +116,12 @@ example : storeRoot (fun a b : Nat => 10 * a + b) 0 [1, 2, 3] = some 153 := by
 theorem extractCommitment_eq_spec (t : Tx) :
     extractWitnessCommitment t = if t.isCoinBase then commitment (t.outs.map (·.pk)) else none :=
   Lemmas.extractCommitment_eq_spec t
+
+/-- wherever it stands among the outputs, the LAST commitment-shaped output is the one extracted -/
+theorem commitment_last_wins (pre post : List Bytes) (pk : Bytes) (hpk : isCommitmentScript pk = true)
+    (hpost : ∀ q ∈ post, isCommitmentScript q = false) :
+    commitment (pre ++ pk :: post) = some ((pk.drop 6).take 32) :=
+  Lemmas.commitment_last_wins pre post pk hpk hpost
 
 /-- `ValidateWitnessCommitment` accepts exactly: a non-empty block whose coinbase has an input and
     either no commitment and no witness data anywhere, or a commitment equal to
@@ -261,6 +281,12 @@ example : Lemmas.SizesOk [((⟨List.replicate 32 1, 0, [0x51], 0xffffffff, [[0xa
   subst hw
   decide
 
+/-- the protocol cost does not depend on the order of the inputs or of the outputs (every input is
+    counted with ITS OWN scriptSig, witness and spent script) -/
+theorem txSigOpCost_perm (i1 i2 : List (Bytes × List Bytes × Bytes)) (o1 o2 : List Bytes)
+    (pi : i1.Perm i2) (po : o1.Perm o2) : txSigOpCost i1 o1 = txSigOpCost i2 o2 :=
+  Lemmas.txSigOpCost_perm i1 i2 o1 o2 pi po
+
 /-- a coinbase pays only for its legacy sigops: 4 · legacy -/
 theorem sigOpCost_coinbase (t : Tx) (utxos : List Utxo) (b16 sw : Bool) :
     getSigOpCost t true utxos b16 sw = some (4 * countSigOps t) := by
@@ -360,6 +386,13 @@ theorem finalized_iff (lt : Nat) (seqs : List Nat) (h t : Int) :
   rw [Lemmas.finalized_eq_spec]
   unfold isFinal LOCKTIME_THRESHOLD SEQUENCE_FINAL
   simp only [List.all_eq_true, Bool.or_eq_true, decide_eq_true_eq, or_assoc]
+
+/-- finality and the BIP68 locks do not depend on the order of the inputs -/
+theorem isFinal_perm (lt : Nat) (s1 s2 : List Nat) (h t : Int) (p : s1.Perm s2) :
+    isFinal lt s1 h t = isFinal lt s2 h t := Lemmas.isFinal_perm lt s1 s2 h t p
+
+theorem sequenceLocks_perm (e : Bool) (l1 l2 : List SeqInput) (p : l1.Perm l2) :
+    sequenceLocks e l1 = sequenceLocks e l2 := Lemmas.sequenceLocks_perm e l1 l2 p
 
 /-- `calcSequenceLock` = BIP68 `CalculateSequenceLocks` for a non-coinbase transaction whose inputs
     are all in the view at heights that leave room for the 16-bit offset (no int32 wrap). -/
